@@ -101,6 +101,10 @@ func TestC18(t *testing.T) {
 				if _, isGRPC := cli.(*vp.GRPCCli); isGRPC {
 					_, serr = cli.Do("grpc-accept-raw", "id", id)
 				}
+			case "p-accept-twice": // the plugin announces one brokered id twice and nobody ever dials it
+				if _, isGRPC := cli.(*vp.GRPCCli); isGRPC {
+					_, serr = cli.Do("grpc-accept-twice", "id", id)
+				}
 			case "p-accept-storm": // plugin code keeps announcing brokered servers in the background, across the shutdown
 				if _, isGRPC := cli.(*vp.GRPCCli); isGRPC {
 					_, serr = cli.Do("grpc-accept-storm")
